@@ -339,6 +339,12 @@ namespace pika::threads::detail {
                                 is_active_wrapper utilization(counters.is_active_);
                                 auto* thrdptr = get_thread_id_data(thrd);
 
+                                // Record the worker this phase runs on before the thread can
+                                // register itself as a waiter anywhere. A resume that races with
+                                // the suspension reads it as its placement hint
+                                // (execution_agent::do_resume) before do_yield has stored it.
+                                thrdptr->set_last_worker_thread_num(num_thread);
+
                                 // Record time elapsed in thread changing state
                                 // and add to aggregate execution time.
                                 exec_time_wrapper exec_time_collector(idle_rate);
